@@ -14,6 +14,7 @@
 (* longer names for the special characters:                                *)
 (*   sq ' dq " bs \ nl tab cr ff vt nul esc(0x1b) uni(U+00E9 / byte 0xE9)  *)
 (*   sur (lone surrogate U+D800, str only)   soh (0x01)                    *)
+(*   nbsp (U+00A0)   ffff (U+FFFF, not an XML character)                   *)
 (* Two observation points: the colouriser's text (Shown) and the text of   *)
 (* the HTML written for it (HtmlShown = after stanutils.html2stan).        *)
 (* TLC enumerates every string over the alphabet up to MaxLen, for str and *)
@@ -127,7 +128,11 @@ Shown == ImplShown(val, by, lbok)
 Classes == (IF ~by /\ "nul" \in Range(val) /\ ~FixNul THEN {"str-nul-dropped"} ELSE {})
            \cup (IF by /\ ~FixBytesQuote /\ \E l \in Range(IF lbok THEN SplitNl(val, <<>>) ELSE <<val>>) : ReprUsesDq(l)
                    THEN {"bytes-single-quote"} ELSE {})
-HtmlShown   == HtmlText(Shown)
+\* U+00A0 (docutils writes &nbsp;, an entity the XML parser does not know) and U+FFFE / U+FFFF (refused by expat) make
+\* html2stan fail; for a constant's value safe_to_stan then falls back on epydoc2stan.colorized_pyval_fallback, which
+\* puts the colouriser's text into the page as it is
+FallsBack(s) == \E i \in DOMAIN s : s[i] \in {"nbsp", "ffff"}
+HtmlShown   == IF ~by /\ lbok /\ FallsBack(Shown) THEN Shown ELSE HtmlText(Shown)
 ReadsBack   == PyDecode(Shown, by) = val /\ PyDecode(HtmlShown, by) = val
 DesignKnown == ReadsBack \/ (Classes # {} /\ Classes \subseteq Open)
 Emit == PrintT(ToJson([val |-> val, by |-> by, lbok |-> lbok, shown |-> Shown, dec |-> PyDecode(Shown, by),
